@@ -286,3 +286,32 @@ def render_order_probe(rep):
                 rep.violations.append(f)
     rep.coverage.setdefault("families", {})["c19-render-order"] = {"cases": n}
     rep.coverage["evaluations"] = rep.coverage.get("evaluations", 0) + n
+
+
+def bundle_imports_probe(rep):
+    """the bundle is self-contained for what the story imports: its import lines run in an interpreter that sees the bundle
+    directory only (no installed bardic) - also when one stdlib module needs another one the story does not name"""
+    import subprocess
+    from bardic.cli.bundler import create_browser_bundle
+    n = 0
+    for imports in (["from bardic.stdlib.economy import Wallet"], ["from bardic.stdlib.economy import Shop", "import bardic.stdlib.dice as dice"],
+                    ["from bardic.stdlib.relationship import Relationship"], ["import bardic.stdlib as lib"], ["from bardic.stdlib.inventory import Inventory"]):
+        d = tempfile.mkdtemp(prefix="verif_bimp_")
+        try:
+            src = "\n".join(imports) + "\n:: Start\nhi\n"
+            open(os.path.join(d, "story.bard"), "w").write(src)
+            with quiet():
+                create_browser_bundle(os.path.join(d, "story.bard"), os.path.join(d, "out"), minimal=True)
+            story = json.load(open(os.path.join(d, "out", "game.json")))
+            code = "import sys; sys.path.insert(0, %r)\n" % os.path.join(d, "out") + "\n".join(story.get("imports", [])) + "\nprint('imports-ok')\n"
+            p_ = subprocess.run(["/usr/bin/python3", "-I", "-c", code], stdout=subprocess.PIPE, stderr=subprocess.PIPE, timeout=60, cwd=d)
+            n += 1
+            if b"imports-ok" not in p_.stdout:
+                rep.violations.append({"cls": None, "family": "c19-bundle-imports", "source": src,
+                                       "what": "the story's import lines do not run inside its own bundle: " + p_.stderr.decode(errors="replace").strip().split("\n")[-1][:200]})
+        except Exception as ex:  # noqa
+            rep.violations.append({"cls": None, "family": "c19-bundle-imports", "what": f"probe failed: {type(ex).__name__}: {str(ex)[:160]}", "source": "\n".join(imports)})
+        finally:
+            shutil.rmtree(d, ignore_errors=True)
+    rep.coverage.setdefault("families", {})["c19-bundle-imports"] = {"cases": n}
+    rep.coverage["evaluations"] = rep.coverage.get("evaluations", 0) + n
